@@ -235,12 +235,16 @@ class ExplorerScriptSsbDecompiler:
             self.write_stmnt(f"jump @label_{label_id};")
         self.labels_jumped_to.add(label_id)
 
-    def source_map_add_opcode(self, op_offset: int) -> None:
-        """Has to be called BEFORE writing the opcode."""
+    def source_map_add_opcode(self, op_offset: int, on_current_line: bool = False) -> None:
+        """
+        Has to be called BEFORE writing the opcode. on_current_line has to be set, if the opcode is written
+        without starting a new line first (elseif headers, which are written behind the closing brace).
+        """
         assert self.smb is not None
         # TODO: Assumes that all statements start in a new line after indent.
         #       Might need this more flexible.
-        self.smb.add_opcode(op_offset, self._line_number, self.indent * NUMBER_OF_SPACES_PER_INDENT)
+        line_number = self._line_number - 1 if on_current_line else self._line_number
+        self.smb.add_opcode(op_offset, line_number, self.indent * NUMBER_OF_SPACES_PER_INDENT)
 
     def source_map_add_position_mark(self, length: int, param: SsbOpParamPositionMarker) -> None:
         assert self.smb is not None
